@@ -41,6 +41,12 @@ def krylov_exp_impl(
     """
 
     initial_norm = v.norm()
+    if initial_norm == 0:
+        # exp(op) of the zero vector (e.g. an upstream gradient that is exactly zero):
+        # normalising would turn every iterate into nan and never converge.
+        return KrylovExpResult(
+            result=v, converged=True, happy_breakdown=True, iteration_count=0
+        )
     v /= initial_norm
 
     lanczos_vectors = [v]
